@@ -47,9 +47,17 @@ type entry struct {
 	Name  []byte  `json:"name"`
 	Inner []entry `json:"inner,omitempty"` // content is a zip archive with these entries
 	IsZip bool    `json:"is_zip,omitempty"`
+	// Mode, when not 0, is the os.FileMode stored in the entry's external attributes: every kind the format can carry
+	// (directory without trailing slash, symbolic link, named pipe, socket, devices, setuid/setgid/sticky, any permission).
+	Mode uint32 `json:"mode,omitempty"`
+	// Target, when not nil, is the entry's content (the link target of a symlink-kind entry); a leading /V is the sandbox root.
+	Target []byte `json:"target,omitempty"`
 }
 
-func (e entry) isDir() bool { return len(e.Name) > 0 && e.Name[len(e.Name)-1] == '/' }
+// archive/zip: FileInfo().IsDir() is true for a trailing slash or for the directory bit in the mode
+func (e entry) isDir() bool {
+	return (len(e.Name) > 0 && e.Name[len(e.Name)-1] == '/') || os.FileMode(e.Mode)&os.ModeDir != 0
+}
 
 type scenario struct {
 	Kind       string  `json:"kind"`    // unzip | san | path
@@ -69,11 +77,14 @@ const vroot = "/V"
 
 var fixedTime = time.Date(2021, 3, 4, 5, 6, 8, 0, time.UTC)
 
-func buildZip(es []entry) []byte {
+func buildZip(es []entry, root string) []byte {
 	var b bytes.Buffer
 	w := zip.NewWriter(&b)
 	for _, e := range es {
 		hd := &zip.FileHeader{Name: string(e.Name), Method: zip.Deflate, Modified: fixedTime}
+		if e.Mode != 0 {
+			hd.SetMode(os.FileMode(e.Mode))
+		}
 		f, err := w.CreateHeader(hd)
 		if err != nil {
 			continue
@@ -81,8 +92,14 @@ func buildZip(es []entry) []byte {
 		if e.isDir() {
 			continue
 		}
-		if e.IsZip {
-			_, _ = f.Write(buildZip(e.Inner))
+		if e.Target != nil {
+			t := string(e.Target)
+			if strings.HasPrefix(t, vroot) {
+				t = root + t[len(vroot):]
+			}
+			_, _ = f.Write([]byte(t))
+		} else if e.IsZip {
+			_, _ = f.Write(buildZip(e.Inner, root))
 		} else {
 			_, _ = f.Write([]byte("content of " + hex.EncodeToString(e.Name)))
 		}
@@ -171,16 +188,57 @@ func newWorld(backend string) *world {
 		ft = filesystem.StandardFS
 	}
 	w.fs = filesystem.NewVirtualFileSystem(w.sh, ft, filesystem.IdentityPathConverterFunc)
-	for _, d := range []string{"/cwd", "/in", "/s/a/b/c", "/s/a/b/sib", "/cwd/rel/q"} {
+	for _, d := range []string{"/cwd", "/in", "/s/a/b/c", "/s/a/b/sib", "/s/a/b/outside/sub", "/cwd/rel/q"} {
 		_ = w.inner.MkdirAll(w.root+d, 0o755)
 	}
 	// bystanders whose fate the snapshot watches
-	for _, f := range []string{"/s/a/b/c/evil", "/s/a/b/evil", "/s/a/evil", "/s/a/b/sib/keep.txt", "/cwd/keep.txt", "/s/a/b/c/dest.txt", "/s/a/b/c/out"} {
+	for _, f := range []string{"/s/a/b/c/evil", "/s/a/b/evil", "/s/a/evil", "/s/a/b/sib/keep.txt", "/cwd/keep.txt", "/s/a/b/c/dest.txt", "/s/a/b/c/out", "/s/a/b/outside/victim.txt", "/s/a/b/outside/sub/victim.txt"} {
 		_ = afero.WriteFile(w.inner, w.root+f, []byte("bystander "+f), 0o644)
 		_ = w.inner.Chtimes(w.root+f, fixedTime, fixedTime)
 	}
+	if backend == "os" {
+		_ = os.Symlink("outside", w.root+"/s/a/b/bylink") // a bystander link: its target text is part of the snapshot
+		for _, d := range []string{"/s/a/b/outside/sub", "/s/a/b/outside", "/s/a/b/sib", "/s/a/b/c", "/s/a/b", "/s/a", "/s", "/cwd/rel/q", "/cwd/rel", "/cwd", "/in"} {
+			_ = os.Chtimes(w.root+d, fixedTime, fixedTime)
+		}
+	}
 	return w
 }
+
+// physical resolves an absolute path the way the kernel does: element by element through the ACTUAL file system,
+// following symbolic links (the last element only when followLast), ".." stepping to the physical parent.
+// Elements that do not exist are kept as they are.
+func physical(p string, followLast bool) string {
+	todo := strings.Split(p, "/")
+	cur := "/"
+	hops := 0
+	for len(todo) > 0 {
+		c := todo[0]
+		todo = todo[1:]
+		switch c {
+		case "", ".":
+			continue
+		case "..":
+			cur = filepath.Dir(cur)
+			continue
+		}
+		next := filepath.Join(cur, c)
+		if fi, err := os.Lstat(next); err == nil && fi.Mode()&os.ModeSymlink != 0 && (len(todo) > 0 || followLast) && hops < 64 {
+			hops++
+			t, _ := os.Readlink(next)
+			if strings.HasPrefix(t, "/") {
+				cur = "/"
+			}
+			todo = append(strings.Split(t, "/"), todo...)
+			continue
+		}
+		cur = next
+	}
+	return cur
+}
+
+// operations that act on what the last path element points to (the others act on the element itself)
+var followsLast = map[string]bool{"OpenFile": true, "Create": true, "Open": true, "MkdirAll": true, "Mkdir": false, "Chtimes": true, "Chmod": true, "Chown": true}
 
 func (w *world) close() {
 	if w.backend == "os" {
@@ -210,9 +268,18 @@ func (w *world) snapshot(skip string) map[string]string {
 			}
 			return nil
 		}
+		if fi.Mode()&os.ModeSymlink != 0 {
+			t, _ := os.Readlink(p)
+			out[p] = "link -> " + t
+			return nil
+		}
+		if !fi.Mode().IsRegular() {
+			out[p] = "special " + fi.Mode().String()
+			return nil
+		}
 		c, _ := afero.ReadFile(w.inner, p)
 		s := sha256.Sum256(c)
-		out[p] = fmt.Sprintf("file %d %d %s", fi.Size(), fi.ModTime().UnixNano(), hex.EncodeToString(s[:8]))
+		out[p] = fmt.Sprintf("file %s %d %d %s", fi.Mode().String(), fi.Size(), fi.ModTime().UnixNano(), hex.EncodeToString(s[:8]))
 		return nil
 	})
 	return out
@@ -224,6 +291,7 @@ type obs struct {
 	Ops     []string `json:"ops"`   // "Name path" of mutating ops, virtual paths, in order
 	Opens   []string `json:"opens"` // OpenFile-for-writing paths in order
 	Outside []string `json:"outside,omitempty"`
+	Phys    []string `json:"physically_outside,omitempty"` // OS: the operation's path resolved through the actual file system at the time of the call
 	Changed []string `json:"changed,omitempty"`
 }
 
@@ -257,12 +325,34 @@ func execute(sc scenario) (o obs, w *world, destExists bool) {
 		}
 	}
 	zipPath := w.root + "/in/a.zip"
-	_ = afero.WriteFile(w.inner, zipPath, buildZip(sc.Entries), 0o644)
+	_ = afero.WriteFile(w.inner, zipPath, buildZip(sc.Entries, w.root), 0o644)
 	before := w.snapshot(absDest)
 	w.sh.ResetLog()
 	w.sh.Rec = true
+	if sc.Backend == "os" {
+		// physical side of the oracle: once an archive can put links inside the destination, the text of a path says nothing
+		w.sh.SetHook(func(op *shim.Op) error {
+			if !op.Mutating || strings.HasPrefix(op.Name, "f.") {
+				return nil
+			}
+			raw := op.Path
+			if !filepath.IsAbs(raw) {
+				raw = w.cwd + "/" + raw
+			}
+			ph := physical(raw, followsLast[op.Name])
+			dph := physical(absDest, true)
+			if !under(dph, ph) && !(op.Name == "MkdirAll" && under(ph, dph)) {
+				o.Phys = append(o.Phys, fmt.Sprintf("%s %s => %s", op.Name, w.virt(op.Path), w.virt(ph)))
+				if !under(w.root, ph) {
+					return fmt.Errorf("harness: operation outside the sandbox refused: %s", ph)
+				}
+			}
+			return nil
+		})
+	}
 	list, err := w.fs.UnzipWithContextAndLimits(context.Background(), zipPath, destReal, limitsFor(sc.Recursive))
 	w.sh.Rec = false
+	w.sh.SetHook(nil)
 	after := w.snapshot(absDest)
 	o.Kind = errKind(err)
 	for _, l := range list {
@@ -439,6 +529,9 @@ func runUnzip(r *h.Run, sc scenario, emit bool) {
 	if len(o.Outside) > 0 {
 		r.Fail("outside-op:"+sc.Backend, fmt.Sprintf("mutating back-end call outside the destination %q: %q (result %s)", sc.Dest, o.Outside, o.Kind), sc)
 	}
+	if len(o.Phys) > 0 {
+		r.Fail("outside-physical:"+sc.Backend, fmt.Sprintf("mutating back-end call whose path, resolved through the actual file system (links inside the destination), lies outside the destination %q: %q (result %s)", sc.Dest, o.Phys, o.Kind), sc)
+	}
 	if len(o.Changed) > 0 {
 		r.Fail("outside-change:"+sc.Backend, fmt.Sprintf("file system entry outside the destination %q created/changed/removed: %v (result %s)", sc.Dest, o.Changed, o.Kind), sc)
 	}
@@ -465,7 +558,10 @@ func runUnzip(r *h.Run, sc scenario, emit bool) {
 	}
 	nontrivial := false
 	for _, e := range sc.Entries {
-		if bytes.Contains(e.Name, []byte("..")) || bytes.ContainsAny(e.Name, "\\\x1b") || e.IsZip || !isASCII(e.Name) {
+		if e.Mode != 0 {
+			r.Count("entry-kind=" + kindName(e.Mode))
+		}
+		if bytes.Contains(e.Name, []byte("..")) || bytes.ContainsAny(e.Name, "\\\x1b") || e.IsZip || !isASCII(e.Name) || e.Mode != 0 {
 			nontrivial = true
 		}
 	}
@@ -514,6 +610,25 @@ func runUnzip(r *h.Run, sc scenario, emit bool) {
 	}
 }
 
+func kindName(m uint32) string {
+	fm := os.FileMode(m)
+	switch {
+	case fm&os.ModeSymlink != 0:
+		return "symlink"
+	case fm&os.ModeDir != 0:
+		return "dir-by-mode"
+	case fm&os.ModeNamedPipe != 0:
+		return "fifo"
+	case fm&os.ModeSocket != 0:
+		return "socket"
+	case fm&os.ModeDevice != 0:
+		return "device"
+	case fm&(os.ModeSetuid|os.ModeSetgid|os.ModeSticky) != 0:
+		return "setid"
+	}
+	return "perm"
+}
+
 func isASCII(b []byte) bool {
 	for _, c := range b {
 		if c >= 128 {
@@ -528,7 +643,9 @@ func descr(sc scenario) map[string]any {
 	names = func(es []entry) []any {
 		var out []any
 		for _, e := range es {
-			if e.IsZip {
+			if e.Mode != 0 {
+				out = append(out, fmt.Sprintf("%q %s -> %q", e.Name, os.FileMode(e.Mode).String(), e.Target))
+			} else if e.IsZip {
 				out = append(out, map[string]any{fmt.Sprintf("%q", e.Name): names(e.Inner)})
 			} else {
 				out = append(out, fmt.Sprintf("%q", e.Name))
@@ -665,10 +782,44 @@ func genName(r *h.Run, dir bool) []byte {
 	return b
 }
 
+var linkTargets = []string{"/V/s/a/b/outside", "/V/s/a/b/sib", "/V/s/a/b/c", "/V/cwd", "../outside", "../../outside", "../../../outside", "../../../../outside",
+	"..", "../..", "../../..", ".", "a", "sub/x", "/V/s/a/b/c/dest/a", "../dest.txt", "../../evil", "nowhere/at/all"}
+var belowNames = []string{"/victim.txt", "/created.txt", "/sub/victim.txt", "/evil", "/newdir/", "/keep.txt", "/a/b/new.txt"}
+var specialModes = []os.FileMode{os.ModeSymlink | 0o777, os.ModeSymlink | 0o777, os.ModeSymlink | 0o777, os.ModeDir | 0o755, os.ModeDir | 0o700, os.ModeNamedPipe | 0o644, os.ModeSocket | 0o644,
+	os.ModeDevice | 0o660, os.ModeDevice | os.ModeCharDevice | 0o666, os.ModeSetuid | 0o755, os.ModeSetgid | 0o750, os.ModeSticky | 0o777, os.ModeSetuid | os.ModeSetgid | 0o4, 0o600, 0o444, 0o200, 0o777}
+
+// genSpecial: an entry of any kind the mode bits can express (a symlink-kind entry carries an arbitrary target as its
+// content) together with ordinary entries BELOW it, in either order.
+func genSpecial(r *h.Run) []entry {
+	var name []byte
+	if r.Rng.Intn(2) == 0 {
+		name = append(name, pick(r, benignDirs)...)
+		name = append(name, '/')
+	}
+	name = append(name, pick(r, []string{"latest", "lnk", "docs", "cur", "d1"})...)
+	m := specialModes[r.Rng.Intn(len(specialModes))]
+	sp := entry{Name: name, Mode: uint32(m)}
+	if m&os.ModeDir == 0 {
+		sp.Target = []byte(pick(r, linkTargets))
+	}
+	var below []entry
+	for i, n := 0, r.Rng.Intn(3); i < n; i++ {
+		below = append(below, entry{Name: append(append([]byte{}, name...), pick(r, belowNames)...)})
+	}
+	if r.Rng.Intn(3) == 0 {
+		return append(below, sp)
+	}
+	return append([]entry{sp}, below...)
+}
+
 func genEntries(r *h.Run, depth int) []entry {
 	n := 1 + r.Rng.Intn(5)
 	var es []entry
 	for i := 0; i < n; i++ {
+		if r.Rng.Intn(6) == 0 {
+			es = append(es, genSpecial(r)...)
+			continue
+		}
 		switch x := r.Rng.Intn(10); {
 		case x < 2:
 			es = append(es, entry{Name: genName(r, true)})
@@ -727,6 +878,33 @@ func corpus() []scenario {
 				scenario{Kind: "unzip", Backend: be, Dest: []byte("/V/s/a/b/c/out.zip"), DestExists: true, Recursive: rec, Entries: []entry{{Name: []byte("."), IsZip: true, Inner: f("evil")}}},
 				scenario{Kind: "unzip", Backend: be, Dest: []byte("/V/s/a/b/c/out.zip"), Recursive: rec, Entries: f("x", "../out")},
 			)
+			// every entry kind of the mode bits, with entries below it, before and after it
+			lnk := func(name, target string) entry {
+				return entry{Name: []byte(name), Mode: uint32(os.ModeSymlink | 0o777), Target: []byte(target)}
+			}
+			for _, t := range []string{"/V/s/a/b/outside", "../../../outside", "../..", "/V/s/a/b/c/dest/inside", "nowhere"} {
+				below := f("docs/latest/victim.txt", "docs/latest/created.txt", "docs/latest/sub/victim.txt")
+				out = append(out,
+					scenario{Kind: "unzip", Backend: be, Dest: []byte("/V/s/a/b/c/dest"), Recursive: rec, Entries: append([]entry{{Name: []byte("inside/")}, lnk("docs/latest", t)}, below...)},
+					scenario{Kind: "unzip", Backend: be, Dest: []byte("/V/s/a/b/c/dest"), Recursive: rec, Entries: append(append([]entry{}, below...), lnk("docs/latest", t))},
+					scenario{Kind: "unzip", Backend: be, Dest: []byte("rel/q/dest"), DestExists: true, Recursive: rec, Entries: []entry{lnk("lnk", t), {Name: []byte("lnk/newdir/")}, {Name: []byte("lnk/evil")}}},
+				)
+			}
+			out = append(out,
+				scenario{Kind: "unzip", Backend: be, Dest: []byte("/V/s/a/b/c/dest"), Recursive: rec, Entries: []entry{lnk("up", ".."), {Name: []byte("up/evil")}, {Name: []byte("up/dest.txt")}}},
+				scenario{Kind: "unzip", Backend: be, Dest: []byte("/V/s/a/b/c/dest"), Recursive: rec, Entries: []entry{lnk("l1", "/V/s/a/b/outside"), lnk("l1/sub/l2", "../.."), {Name: []byte("l1/sub/l2/sib/keep.txt")}}},
+				scenario{Kind: "unzip", Backend: be, Dest: []byte("/V/s/a/b/c/dest"), Recursive: rec, Entries: []entry{{Name: []byte("n.zip"), IsZip: true, Inner: []entry{lnk("cur", "/V/s/a/b/outside"), {Name: []byte("cur/victim.txt")}}}}},
+			)
+			for _, m := range specialModes {
+				if m&os.ModeSymlink != 0 {
+					continue
+				}
+				sp := entry{Name: []byte("k/special"), Mode: uint32(m)}
+				if m&os.ModeDir == 0 {
+					sp.Target = []byte("/V/s/a/b/outside")
+				}
+				out = append(out, scenario{Kind: "unzip", Backend: be, Dest: []byte("/V/s/a/b/c/dest"), Recursive: rec, Entries: []entry{sp, {Name: []byte("k/special/victim.txt")}, {Name: []byte("after.txt")}}})
+			}
 			for _, d := range destShapes {
 				out = append(out, scenario{Kind: "unzip", Backend: be, Dest: []byte(d), DestExists: len(d)%2 == 0, Recursive: rec,
 					Entries: append(f("ok.txt", "d/", "d/f.txt", "../evil"), entry{Name: []byte("n.zip"), IsZip: true, Inner: f("i.txt")})})
